@@ -218,7 +218,7 @@ impl G<'_> {
                 0 | 1 => {
                     // any Unicode white space is insignificant where a blank is
                     if self.cfg.unicode && self.r.chance(1, 6) {
-                        { let t__ = self.r.pick(&["\u{a0}", "\u{3000}", "\u{2003}", "\t", "\r\n"]); self.put(t__) }
+                        { let t__ = self.r.pick(&["\u{a0}", "\u{3000}", "\u{2003}", "\t", "\r\n", "\u{c}", "\u{b}", "\u{85}", "\u{2028}", "\u{1680}", "\r"]); self.put(t__) }
                     } else {
                         self.put(" ")
                     }
@@ -732,13 +732,18 @@ impl G<'_> {
                     self.p.kinds.insert("named-arg-computed-name");
                     let mn = self.r.pick(MNAMES);
                     let w = self.ascii_word();
-                    let t = match self.r.below(6) {
+                    let t = match self.r.below(10) {
                         0 => "&x".to_string(),
                         1 => format!("{w}&x"),
                         2 => format!("%{mn}"),
                         3 => format!("{w}%{mn}"),
                         4 => format!("%{mn}()"),
-                        _ => format!("&x.{w}"),
+                        5 => format!("&x.{w}"),
+                        // the name ends with the dot that terminates a macro variable reference
+                        6 => "&x.".to_string(),
+                        7 => format!("{w}_&x."),
+                        8 => "&&p&x..".to_string(),
+                        _ => format!("&x.{w}&y."),
                     };
                     self.put(&t);
                 } else {
